@@ -352,7 +352,7 @@ func init() {
 			"C Root() read between a mutation and the next commit. Every 200th class-A history runs on real pebble (reload after each commit). non-trivial/distinct = distinct history traces",
 		Cases: func(tier string) int {
 			if tier == "thorough" {
-				return 1600000
+				return 1000000
 			}
 			return 64000
 		},
